@@ -23,6 +23,7 @@ RULE = (
     "absent keys x a value alphabet (valid, wrong type, wrong length, equal length) through edit_header. Non-trivial = "
     "every case except single-key headers with a zero value"
 )
+SCALE_LANE = 'strings of 81, 133 and 300 bytes; the command-line wrapper with 17 texts x every key'
 ASSUMPTIONS = [
     "well-formed header = HEADER_START ... HEADER_END, recognised ASCII keys, no duplicates, nchans>=1 and nbits present",
     "finite double values only (NaN compares unequal to itself and is outside 'any finite field values')",
